@@ -32,7 +32,10 @@ func init() { register("engineapi", cmdEngineAPI) }
 // depth 1..3, shared sub-workflows, sub-directories) written to a fresh temporary context directory, run
 //   (A) through the engine entry point (engine.New + RunWorkflow / Parse + Run) with the file cache built as
 //       cmd/arcaflow/main.go builds it and through the in-memory API loadfile.NewFileCache, with absolute / relative /
-//       non-canonical spellings of the context directory and from several working directories, and
+//       non-canonical spellings of the context directory and from several working directories; the in-memory cache holds
+//       every file (also for a directory that does not exist), only some of the sub-workflows (the others are in the
+//       context directory), only the workflows that reference others (the referenced ones are in the context directory),
+//       or a copy that differs from the one in the context directory, and
 //   (B) directly: YAML converter + Executor.Prepare(wf, contents) + Execute(decoded input) with a hand-built file map.
 // The case also carries the result an oracle computes from the abstract tree alone (independent of nesting and sharing),
 // the error flag the tree declares, and a direct exercise of loadfile.MergeFileCaches for the model comparison.
@@ -741,6 +744,9 @@ type apiVariant struct {
 	Result       apiResult         `json:"result"`
 	ExitCode     int               `json:"exit_code"` // CLI mapping, -1 when not computed
 	EqualsDirect bool              `json:"equals_direct"`
+	Supplied     string            `json:"supplied,omitempty"` // memory API: all | some | referrers | modified (which files the cache holds)
+
+	memTexts map[string]string // memory API: the files handed to loadfile.NewFileCache
 }
 
 func withCwd(dir string, fn func()) error {
@@ -1000,7 +1006,42 @@ func runEngineAPICase(r *rng, caseID string, o apiOpts) map[string]any {
 	}
 	addMem := func(name, cwd, given string, m map[string]string, baseline string) {
 		variants = append(variants, &apiVariant{Name: name, API: "memory", Cwd: cwd, RootGiven: given, FileName: "workflow.yaml",
-			Keys: digests(m), Disk: "tree", Baseline: baseline})
+			Keys: digests(m), Disk: "tree", Baseline: baseline, Supplied: "all", memTexts: m})
+	}
+	// baselineFor: the direct run on exactly these contents (an existing baseline, or a new one)
+	results := map[string]*apiResult{"direct": &direct, "direct_mod": &directMod, "direct_disk": &directDisk}
+	baselineFor := func(contents map[string]string) string {
+		want := subOnly(digests(contents))
+		rootD := digest([]byte(contents[t.RootFile]))
+		for _, nm := range sortedKeys(baselines) {
+			b := baselines[nm].(map[string]any)
+			if b["root"] == rootD && reflect.DeepEqual(b["sub"], want) {
+				return nm
+			}
+		}
+		nm := fmt.Sprintf("direct_%d", len(baselines))
+		res := new(apiResult)
+		_ = withCwd(neutral, func() { *res = runDirect(beh, contents[t.RootFile], bytesMap(contents), input) })
+		baselines[nm] = map[string]any{"root": rootD, "sub": want, "result": *res}
+		results[nm] = res
+		return nm
+	}
+	// addPartial: an in-memory cache that holds only `supplied` (always including the root); what Parse is going to use is
+	// the supplied files plus, for every other referenced file, the copy in the context directory (if `disk`)
+	addPartial := func(name, cwd, given string, supplied map[string]string, disk bool, kind string) {
+		contents := map[string]string{}
+		dsk := "none"
+		if disk {
+			dsk = "tree"
+			for f, s := range diskTexts {
+				contents[f] = s
+			}
+		}
+		for f, s := range supplied {
+			contents[f] = s
+		}
+		variants = append(variants, &apiVariant{Name: name, API: "memory", Cwd: cwd, RootGiven: given, FileName: "workflow.yaml",
+			Keys: digests(supplied), Disk: dsk, Baseline: baselineFor(contents), Supplied: kind, memTexts: supplied})
 	}
 	// exactly the CLI: NewFileCacheUsingContext(dir, {"workflow": "workflow.yaml"}) + LoadContext, Parse(fileCtx, "workflow"), Run
 	addCtx("cli_abs", "neutral", ctxDir, "workflow", "workflow", true)
@@ -1019,10 +1060,38 @@ func runEngineAPICase(r *rng, caseID string, o apiOpts) map[string]any {
 	if modFile != "" {
 		addMem("mem_abs_mod", "neutral", ctxDir, modTexts, "direct_mod")
 	}
-	if r.chance(1, 4) {
-		v := &apiVariant{Name: "mem_nodisk", API: "memory", Cwd: "neutral", RootGiven: filepath.Join(base, "absent"), FileName: "workflow.yaml",
-			Keys: digests(texts), Disk: "none", Baseline: "direct"}
-		variants = append(variants, v)
+	// every file supplied, for a directory that does not exist: nothing is read from disk
+	addPartial("mem_nodisk", "neutral", filepath.Join(base, "absent"), texts, false, "all")
+	if len(t.Order) > 1 {
+		subs := t.Order[:len(t.Order)-1] // the root is last in Order
+		// some of the sub-workflows supplied, the others only in the context directory
+		some := map[string]string{t.RootFile: texts[t.RootFile]}
+		for _, f := range subs {
+			if r.chance(1, 2) {
+				some[f] = texts[f]
+			}
+		}
+		if len(some) == 1+len(subs) {
+			delete(some, subs[r.intn(len(subs))])
+		}
+		addPartial("mem_some", "neutral", ctxDir, some, true, "some")
+		addPartial("mem_some_rel", "parent", "ctx", some, true, "some")
+		if r.chance(1, 3) {
+			// the files that are neither supplied nor on disk are missing for the engine and for the direct run alike
+			addPartial("mem_some_nodisk", "neutral", filepath.Join(base, "absent"), some, false, "some")
+		}
+		// the workflows that reference others supplied, the ones they reference only in the context directory
+		referrers := map[string]string{}
+		for _, f := range t.Order {
+			if len(t.Nodes[f].refs()) > 0 {
+				referrers[f] = texts[f]
+			}
+		}
+		addPartial("mem_referrers", "neutral", ctxDir, referrers, true, "referrers")
+		if modFile != "" {
+			// only the root and a copy that differs from the one in the context directory: the caller's copy is used
+			addPartial("mem_mod_only", "neutral", ctxDir, map[string]string{t.RootFile: modTexts[t.RootFile], modFile: modTexts[modFile]}, true, "modified")
+		}
 	}
 	if r.chance(1, 10) {
 		addCtx("abs_missing_name", "neutral", ctxDir, "workflow.yaml", "nope.yaml", false)
@@ -1031,11 +1100,7 @@ func runEngineAPICase(r *rng, caseID string, o apiOpts) map[string]any {
 		v := v
 		mk := func() (loadfile.FileCache, error) {
 			if v.API == "memory" {
-				src := texts
-				if v.Baseline == "direct_mod" {
-					src = modTexts
-				}
-				return loadfile.NewFileCache(v.RootGiven, bytesMap(src)), nil
+				return loadfile.NewFileCache(v.RootGiven, bytesMap(v.memTexts)), nil
 			}
 			req := map[string]string{}
 			for k := range v.Keys {
@@ -1055,14 +1120,7 @@ func runEngineAPICase(r *rng, caseID string, o apiOpts) map[string]any {
 			v.RootClass = rootClass(v.RootGiven)
 			v.Result, v.ExitCode = runEngine(beh, mk, v.FileName, input, v.Split)
 		})
-		bl := direct
-		switch v.Baseline {
-		case "direct_mod":
-			bl = directMod
-		case "direct_disk":
-			bl = directDisk
-		}
-		v.EqualsDirect = sameAPIOutcome(v.Result, bl)
+		v.EqualsDirect = sameAPIOutcome(v.Result, *results[v.Baseline])
 	}
 	// the context is loaded (relative root) while the process is in one working directory and parsed / run while it is in
 	// another one: the context directory is the one the files were loaded from, wherever the process has moved to since
